@@ -697,12 +697,21 @@ var sizes = []int{0, 1, 2, 100, 4095, 4096, 4097, 8191, 8192, 8193, 32767, 32768
 func metaGen() *rapid.Generator[[]s3c.KV] {
 	return rapid.Custom(func(t *rapid.T) []s3c.KV {
 		n := rapid.IntRange(0, 4).Draw(t, "nmeta")
+		// a third of the sets take all their names from the pool: a rewrite of a key (overwrite, copy onto itself with
+		// replaced metadata) then nearly always shares a name with the set it replaces and drops or adds another
+		dense := rapid.IntRange(0, 2).Draw(t, "meta_dense") == 0
+		if dense && n == 0 {
+			n = 2
+		}
 		seen := map[string]bool{}
 		var out []s3c.KV
 		for i := 0; i < n; i++ {
 			// half of the names come from a small pool: successive writes of a key then often share some names and
 			// differ in others (replacement, not union or difference, is what must be read back)
 			k := rapid.OneOf(rapid.SampledFrom([]string{"color", "owner", "a", "b-c", "x1"}), rapid.StringMatching(`[a-z][a-z0-9-]{0,8}`)).Draw(t, "mk")
+			if dense {
+				k = rapid.SampledFrom([]string{"color", "owner", "a"}).Draw(t, "mk_dense")
+			}
 			if seen[k] {
 				continue
 			}
@@ -796,6 +805,11 @@ func opGen(thorough bool) *rapid.Generator[op] {
 				o.Src = rapid.IntRange(0, 3).Draw(t, "src")
 				o.Repl = rapid.Bool().Draw(t, "replace")
 				o.TRepl = rapid.Bool().Draw(t, "tag_replace")
+				if rapid.IntRange(0, 3).Draw(t, "onto_itself") == 0 {
+					// a key rewritten in place: new metadata and / or tags over the old ones
+					o.Src = o.Key
+					o.Repl = true
+				}
 			}
 		case "restart":
 			o.Kill = rapid.Bool().Draw(t, "kill")
